@@ -23,6 +23,18 @@ for path, rx in pairs:
     keep = [h for h in hunks if any(re.search(rx, l[1:]) for l in h[1:] if l[:1] in "+-")]
     if not keep:
         sys.exit("no hunk of %s matches %s" % (path, rx))
+    # the new-side line numbers of a -U0 hunk count the hunks we drop: recompute them from the
+    # old side and the kept hunks only (git apply --unidiff-zero positions insertions by them)
+    delta = 0
+    for h in keep:
+        m = re.match(r"@@ -(\d+)(?:,(\d+))? \+(\d+)(?:,(\d+))? @@(.*)", h[0])
+        a = int(m.group(1)); b = int(m.group(2)) if m.group(2) is not None else 1
+        d = int(m.group(4)) if m.group(4) is not None else 1
+        c = a + delta + (1 if b == 0 else 0)
+        if d == 0:
+            c = a + delta - 1 if b > 0 else c
+        h[0] = "@@ -%d,%d +%d,%d @@%s" % (a, b, c, d, m.group(5))
+        delta += d - b
     patch = "\n".join(head) + "\n" + "\n".join("\n".join(h) for h in keep)
     if not patch.endswith("\n"):
         patch += "\n"
